@@ -255,7 +255,9 @@ func DownloadHandler(w io.Writer, fullPath string, fileTransfer *FileTransfer, f
 		dataOffset = int64(binary.BigEndian.Uint32(fileTransfer.FileResumeData.ForkInfoList[0].DataSize[:]))
 	}
 
-	fw, err := NewFileWrapper(fs, fullPath, 0)
+	// The wrapper is given the resume offset so that the DATA fork header it sends announces the data that follows (from
+	// the offset to the end), as the reply to the download request does.
+	fw, err := NewFileWrapper(fs, fullPath, dataOffset)
 	if err != nil {
 		return fmt.Errorf("reading file header: %v", err)
 	}
@@ -490,6 +492,12 @@ func DownloadFolderHandler(rwc io.ReadWriter, fullPath string, fileTransfer *Fil
 		if _, err := rwc.Write(binary.BigEndian.AppendUint32(nil, itemSize)); err != nil {
 			rLogger.Error(err.Error())
 			return fmt.Errorf("error sending file size: %w", err)
+		}
+
+		// On resume the DATA fork header announces what follows: the data from the offset on.
+		if dataOffset > 0 {
+			remaining := binary.BigEndian.Uint32(hlFile.Ffo.FlatFileDataForkHeader.DataSize[:]) - uint32(dataOffset)
+			binary.BigEndian.PutUint32(hlFile.Ffo.FlatFileDataForkHeader.DataSize[:], remaining)
 		}
 
 		// Send ffo bytes to client
